@@ -65,9 +65,15 @@ def main(tier):
         if tier == "thorough" and name.count("int8_t") == 2 and op not in ("u~", "u-", "u!"):
             it["states_fn8"] = True
         items.append(it)
-    n2 = 300 if tier == "quick" else 3000
+    n2 = 120 if tier == "quick" else 3000
     for name, text in gen.ops_depth2(rng, n2):
         items.append(dict(name="d2:" + name, text=text, vkey="depth2:" + name.split("|")[0]))
+    for rep in range(1 if tier == "quick" else 6):
+        for name, text in gen.ops_pairs(random.Random(f"{run.seed}:pairs:{rep}")):
+            it = dict(name=f"{name};{rep}", text=text, vkey="pairs:" + ";".join(name.split(";")[:3]))
+            if "<<" in name or ">>" in name:
+                it["states_fn"] = shift_states
+            items.append(it)
     nrand = 150 if tier == "quick" else 2000
     g = gen.G(random.Random(run.seed + 7), avoid=("calls", "mem", "postfix", "div", "loops", "stmtexpr", "const_cond"))
     for i in range(nrand):
